@@ -49,6 +49,12 @@ def generate(seed, tier):
                       'multi': [[rng.randint(0, 40), rng.random() < 0.5, rng.randint(1, n)]
                                 for _ in range(rng.randint(1, 3))] if (tier != 'quick' or i % 3 == 0) else [],
                       'hard': tier == 'thorough' and i % 4 == 0})
+    # nearly complete large runs: only the last few crash points are explored
+    for j in range({'quick': 1, 'thorough': 6, 'search': 2}[tier]):
+        rng = derived_rng(seed, 'C04big', j)
+        n = rng.choice([220, 240, 400])
+        cases.append({'n': n, 'm': 1, 'mask': [0] * n, 'batch': 1, 'batch2': rng.randint(1, 7), 'separate': False,
+                      'fresh': True, 'multi': [], 'hard': False, 'tail': 6})
     return cases
 
 
@@ -213,7 +219,9 @@ def run_impl(inp, work):
     status0 = inp['mask'] if not inp['fresh'] else [0] * inp['n']
     obs['status0'] = status0
     # ---- every crash point ---------------------------------------------------------------------
-    for i in range(L):
+    points = list(range(L)) if not inp.get('tail') else list(range(max(0, L - inp['tail']), L))
+    obs['points'] = points
+    for i in points:
         cd = os.path.join(work, 'c%d' % i)
         snap = os.path.join(work, 's%d' % i)
         _copy(base, cd, sep)
@@ -385,7 +393,7 @@ def model_requests_obs(inp, obs):
     """the model side needs the implementation's observed trace"""
     sep = inp['separate']
     return [{'op': 'crash.wf', 'final': obs['final'], 'events': obs['model_events'], 'f': 1 if sep else 0, 'g': 0,
-             'status0': obs['status0']},
+             'status0': obs['status0'], 'points': sorted({obs['prefix'][i] for i in obs['points']})},
             {'op': 'crash.trace', 'final': obs['final'], 'status0': obs['status0'], 'batch': inp['batch'],
              'same': not sep, 'g': 0}]
 
@@ -417,7 +425,7 @@ def model_compare(inp, obs, r):
         out.append('observed event trace differs from the modelled compute trace')
     # survivors predicted by the crash model from the observed trace vs the real files
     for rec in obs['crash']:
-        s = wf['survivors'][obs['prefix'][rec['i']]]
+        s = [x for x in wf['survivors'] if x['i'] == obs['prefix'][rec['i']]][0]
         for kind, sk, rk in (('graceful', 'vs', 'vr'), ('kill', 'ds', 'dr')):
             real = rec.get(kind)
             if real is None or real.get('unopenable'):
